@@ -63,6 +63,7 @@ type histInput struct {
 	ml     int    // ML: longest copy
 	marks  []int  // output offsets of interest (segment boundaries of assembled streams)
 	smarks []int  // source offsets at which the output reaches marks[i] (when known exactly)
+	work   int    // lzma family: the exact work buffer length dict_size + 273, when the producer knows it
 }
 
 // ---- a deflate assembler (RFC 1951): stored blocks and fixed-Huffman blocks
@@ -503,7 +504,7 @@ func histInputs(r *hlib.Run, rng *hlib.Rand) []histInput {
 			if s.codec == "lzip" {
 				z = lzipFromRaw(z, s.plain, 12)
 			}
-			add(histInput{codec: s.codec, name: s.name, data: z, want: s.plain, window: s.dict, ml: 274, marks: []int{3000, 4000, 6000}})
+			add(histInput{codec: s.codec, name: s.name, data: z, want: s.plain, window: s.dict, ml: 274, marks: []int{3000, 4000, 6000}, work: s.dict + 273})
 		}
 	}
 
@@ -748,6 +749,7 @@ func histSweep(r *hlib.Run, ds map[cdrv.Flavour]*cdrv.Driver, fls []cdrv.Flavour
 			}
 			ins = append(ins, in)
 			refCmds = append(refCmds, histPre(in.codec, "work=16778240 ")+"dst=16777216 "+hlib.Hex(in.data))
+			// (the reference gets the big work buffer in any case; the split runs the exact one)
 		}
 		refs := runCmds(ds[fl], refCmds)
 		type hjob struct {
@@ -794,7 +796,11 @@ func histSweep(r *hlib.Run, ds map[cdrv.Flavour]*cdrv.Driver, fls []cdrv.Flavour
 					p.opts += fmt.Sprintf("dst=%d ", outLen+4096)
 					j.plans[k] = p
 				}
-				j.cmds = append(j.cmds, histPre(in.codec, "work=16778240 ")+p.opts+hlib.Hex(in.data))
+				work := "work=16778240 "
+				if in.work > 0 && k%2 == 0 {
+					work = fmt.Sprintf("work=%d ", in.work) // exactly workbuf_len().min_incl
+				}
+				j.cmds = append(j.cmds, histPre(in.codec, work)+p.opts+hlib.Hex(in.data))
 			}
 			if lzmaFamily {
 				// the work buffer sized the documented way: workbuf_len(), grown on "$short workbuf"
@@ -809,6 +815,18 @@ func histSweep(r *hlib.Run, ds map[cdrv.Flavour]*cdrv.Driver, fls []cdrv.Flavour
 			all = append(all, j.cmds...)
 		}
 		res := runCmds(ds[fl], all)
+		if f := os.Getenv("C05_DUMP"); f != "" {
+			// debugging aid: every command (options only) of this part with the driver's full answer
+			var b strings.Builder
+			k := 0
+			for _, j := range jobs {
+				for i := range j.cmds {
+					fmt.Fprintf(&b, "%s %s %s%s-> %s\n", fl, j.in.codec, j.in.name, strings.TrimSuffix(strings.TrimPrefix(j.cmds[i], "run "+j.in.codec), hlib.Hex(j.in.data)), res[k].raw)
+					k++
+				}
+			}
+			os.WriteFile(f+"."+string(fl), []byte(b.String()), 0o644)
+		}
 		at := 0
 		for _, j := range jobs {
 			tokens := have[j.in.codec] == 'K'
